@@ -1,1 +1,28 @@
-import CG.Model.TS
+import CG.Proofs.C16
+import CG.Proofs.C16Closed
+
+#print axioms CG.TS.tsGraphEqShallow_eq_graphEq
+#print axioms CG.TS.tsEq_iff_structural
+#print axioms CG.C16.stationary_def
+#print axioms CG.C16.stationary_no_nodes
+#print axioms CG.C16.stationary_ok
+#print axioms CG.C16.stationary_contains
+#print axioms CG.C16.stationary_nodes
+#print axioms CG.C16.stationary_window
+#print axioms CG.C16.stationary_edges
+#print axioms CG.C16.stationary_complete
+#print axioms CG.C16.stationary_hyp
+#print axioms CG.C16.stationary_is_stationary
+#print axioms CG.C16.stationary_idem
+#print axioms CG.C16.stationary_least
+#print axioms CG.C16.isStationary_def
+#print axioms CG.C16.isStationary_nonDag
+#print axioms CG.C16.isStationary_true_iff
+#print axioms CG.C16.isStationary_ok
+#print axioms CG.C16.isStationary_iff
+#print axioms CG.C16.isStationary_iff_stationary
+#print axioms CG.C16.isStationary_iff_nothing_missing
+#print axioms CG.C16.isStationary_of_stationaryGraph
+
+#print axioms CG.C16.extendSpec
+#print axioms CG.C15.extend_eq_unroll
